@@ -121,7 +121,16 @@ impl Campaign for ConcCampaign {
             let samples = samples.clone();
             Some(thread::spawn(move || {
                 while !done.load(Ordering::Acquire) {
-                    let qd = qs.queued();
+                    let qd = match util::catch(|| qs.queued()) {
+                        Ok(v) => v,
+                        Err(p) => {
+                            let mut b = bad.lock().unwrap();
+                            if b.len() < 3 {
+                                b.push(format!("queued() panicked under concurrency: {}", p));
+                            }
+                            continue;
+                        }
+                    };
                     let s = qs.submitted();
                     if qd > s || qd > attempts_total {
                         let mut b = bad.lock().unwrap();
@@ -386,6 +395,163 @@ impl Campaign for ConcCampaign {
             nontrivial,
             fingerprint: util::hash_json(case),
             classes,
+        }
+    }
+}
+
+
+// ---------------------------------------------------------------------------
+// C10: race for the last free slot of a bounded queue
+
+#[derive(Serialize, Deserialize, Clone, Debug)]
+pub struct LastSlotCase {
+    pub cap: usize,
+    pub producers: u8,
+    pub rounds: u16,
+}
+
+pub struct LastSlotRace;
+
+impl Campaign for LastSlotRace {
+    type Case = LastSlotCase;
+    fn name(&self) -> &'static str {
+        "queue-last-slot-race"
+    }
+    fn max_shrink_iters(&self) -> u32 {
+        20
+    }
+    fn strategy(&self, _tier: Tier) -> BoxedStrategy<LastSlotCase> {
+        (prop_oneof![3 => Just(1usize), 2 => Just(2usize), 2 => 3usize..8], 2u8..=8, 50u16..400)
+            .prop_map(|(cap, producers, rounds)| LastSlotCase { cap, producers, rounds })
+            .boxed()
+    }
+    fn check(&self, case: &LastSlotCase, ctx: &Ctx) -> Outcome {
+        let w = ctx.w();
+        let gate = Gate::new();
+        let g2 = gate.clone();
+        let q = match util::catch(|| QueuingMetricSink::with_capacity(GatedSink { gate: g2 }, case.cap)) {
+            Ok(q) => q,
+            Err(p) => {
+                return Outcome {
+                    verdict: Err(format!("constructor panicked: {}", p)),
+                    nontrivial: false,
+                    fingerprint: 0,
+                    classes: vec![],
+                }
+            }
+        };
+        let p = case.producers as usize;
+        let barrier = Arc::new(std::sync::Barrier::new(p + 1));
+        let stop = Arc::new(AtomicBool::new(false));
+        let (rtx, rrx) = crossbeam_channel::unbounded::<Result<usize, String>>();
+        let mut joins = Vec::new();
+        for t in 0..p {
+            let h = q.clone();
+            let barrier = barrier.clone();
+            let stop = stop.clone();
+            let rtx = rtx.clone();
+            let gate = gate.clone();
+            joins.push(thread::spawn(move || {
+                gate.register_producer(thread::current().id());
+                let mut round = 0usize;
+                loop {
+                    barrier.wait();
+                    if stop.load(Ordering::Acquire) {
+                        break;
+                    }
+                    let m = format!("r{}p{}:1|c", round, t);
+                    let r = match util::catch(|| h.emit(&m)) {
+                        Ok(Ok(n)) => Ok(n),
+                        Ok(Err(_)) => Err(String::new()),
+                        Err(pm) => Err(pm),
+                    };
+                    let _ = rtx.send(r);
+                    round += 1;
+                }
+                drop(h);
+            }));
+        }
+        gate.register_producer(thread::current().id());
+        let mut verdict: Result<(), String> = Ok(());
+        let mut accepted_total = 0usize;
+        let mut contended_rounds = 0usize;
+        'rounds: for round in 0..case.rounds as usize {
+            // worker takes one metric in hand, cap-1 more fill the queue up to one free slot
+            for i in 0..case.cap {
+                match q.emit(&format!("fill{}.{}:1|c", round, i)) {
+                    Ok(_) => accepted_total += 1,
+                    Err(e) => {
+                        verdict = Err(format!("round {}: pre-fill emit #{} refused ({}) although the queue has room", round, i, e));
+                        break 'rounds;
+                    }
+                }
+                if i == 0 {
+                    let want = accepted_total; // everything before was drained: this one is entered
+                    if !gate.wait_until(w, |g| g.entered >= want) {
+                        verdict = Err(format!("round {}: accepted metric not handed to the wrapped sink within {:?}", round, w));
+                        break 'rounds;
+                    }
+                }
+            }
+            // exactly one free slot now: release the producers at once
+            barrier.wait();
+            let mut oks = 0usize;
+            for _ in 0..p {
+                match rrx.recv_timeout(w) {
+                    Ok(Ok(_)) => oks += 1,
+                    Ok(Err(m)) if m.is_empty() => {}
+                    Ok(Err(pm)) => {
+                        verdict = Err(format!("emit panicked in a producer: {}", pm));
+                        break 'rounds;
+                    }
+                    Err(_) => {
+                        verdict = Err(format!("round {}: a producer's emit did not return within {:?} while the wrapped sink is blocked", round, w));
+                        break 'rounds;
+                    }
+                }
+            }
+            accepted_total += oks;
+            if oks != 1 {
+                verdict = Err(format!(
+                    "round {}: with exactly one free slot in a queue of capacity {} (wrapped sink blocked, {} already queued), {} of {} concurrent emits returned Ok: the capacity is {}",
+                    round,
+                    case.cap,
+                    case.cap - 1,
+                    oks,
+                    p,
+                    if oks > 1 { "exceeded" } else { "not reachable" }
+                ));
+                break 'rounds;
+            }
+            contended_rounds += 1;
+            // full now: one more must be refused
+            if q.emit("overflow:1|c").is_ok() {
+                verdict = Err(format!("round {}: emit accepted although the bounded queue already holds its capacity {}", round, case.cap));
+                break 'rounds;
+            }
+            // drain everything
+            gate.set_open(Some(StepOut::Ok));
+            let want = accepted_total;
+            if !gate.wait_until(w, |g| g.exited >= want) {
+                verdict = Err(format!("round {}: queued metrics were not delivered within {:?}", round, w));
+                break 'rounds;
+            }
+            gate.set_open(None);
+        }
+        stop.store(true, Ordering::Release);
+        gate.set_open(Some(StepOut::Ok));
+        if verdict.is_ok() || !verdict.as_ref().unwrap_err().contains("did not return") {
+            barrier.wait();
+            for j in joins {
+                let _ = j.join();
+            }
+        }
+        drop(q);
+        Outcome {
+            verdict,
+            nontrivial: contended_rounds >= 10,
+            fingerprint: util::hash_json(case),
+            classes: vec!["producers race for the last free slot"],
         }
     }
 }
